@@ -16,6 +16,7 @@ import XpProofs.Lemmas.ProtoTri
 import XpProofs.Lemmas.ProtoGreedy
 import XpProofs.Lemmas.ProtoRun
 import XpProofs.Lemmas.ProtoSpec
+import XpProofs.Lemmas.SqDist
 
 namespace Xp.ProtoSel
 
@@ -166,6 +167,15 @@ theorem proto_batching_indep (K : Kern) (hsym : ∀ i j, K i j = K j i) (n b b' 
   have hw := congrArg Prod.snd h
   simp only at hc hw
   exact ⟨hc, hw, by rw [hw]⟩
+
+open Xp.Lime in
+/-- translation invariance: for a kernel that is a function of the squared Euclidean distance (the default rbf), adding a common
+    offset to every case changes no kernel value, hence neither the selected prototypes, their order nor their weights -/
+theorem proto_translation_invariant (κ : Rat → Rat) (pts : Nat → List Rat) (c : Rat) (n b : Nat) (meth : Method)
+    (inv : List (List Rat) → List (List Rat)) (eps : Rat) (m : Nat) :
+    run (cfgOf (fun i j => κ (sqDist ((pts i).map (· + c)) ((pts j).map (· + c)))) n b meth inv eps) m
+      = run (cfgOf (fun i j => κ (sqDist (pts i) (pts j))) n b meth inv eps) m := by
+  simp only [sqDist_translation]
 
 /-- `batch_size = None` (one batch holding everything) is the special case `b = n` -/
 theorem proto_bs_indep (K : Kern) (hsym : ∀ i j, K i j = K j i) (n b : Nat) (hn : 0 < n) (hb : 0 < b)
